@@ -27,6 +27,9 @@ import KafkaVerif.Base.Proto
 import KafkaVerif.Model.WriterClose
 import KafkaVerif.Model.ReaderClose
 import KafkaVerif.Model.GroupRun
+import KafkaVerif.Model.GroupConns
+import KafkaVerif.Model.TransportConnC17
+import KafkaVerif.Model.FetcherLife
 
 namespace KV.OracleC09
 open KV KV.WriterClose
@@ -44,6 +47,8 @@ inductive Tok
   | cr (c : Nat) (r : Res)
   | lk (n : Nat)
   | to (c : Nat)   -- a cancelled call was still blocked when the watchdog expired
+  | conn (opened : Bool) (n : Nat)   -- broker-side census: connection n accepted / closed by the client
+  | oc (n : Nat)   -- connections still open after the scenario's timeouts
 deriving Repr, DecidableEq
 
 def parseNats (s : String) : Option (List Nat) :=
@@ -76,6 +81,9 @@ def parseTok (t : String) : Option Tok :=
   | ["cr", c, r] => do some (.cr (← c.toNat?) (← parseRes r))
   | ["lk", n] => do some (.lk (← n.toNat?))
   | ["to", c] => do some (.to (← c.toNat?))
+  | ["bo", n] => do some (.conn true (← n.toNat?))
+  | ["bc", n] => do some (.conn false (← n.toNat?))
+  | ["oc", n] => do some (.oc (← n.toNat?))
   | _ => none
 
 def parseCfg (s : String) : Option Cfg := do
@@ -127,11 +135,15 @@ def obsEvents (s : State) : Tok → List Event
   | .cr c r => if s.calls.any (fun x => x.id = c && x.phase = .left r) then [.ret c] else []
   | .lk _ => []
   | .to _ => []
+  | .conn _ _ => []
+  | .oc _ => []
 
 def stepObs (cfg : Cfg) (ss : SS) (t : Tok) : SS :=
   match t with
   | .lk _ => ss
   | .to _ => ss
+  | .conn _ _ => ss
+  | .oc _ => ss
   | _ =>
     let next := ss.fold (fun acc s => (obsEvents s t).foldl (fun acc e =>
       match step cfg s e with | some s' => s' :: acc | none => acc) acc) []
@@ -224,7 +236,7 @@ def holds (cfg : Cfg) (toks : List Tok) : Bool :=
         z.any fun y => y.2 < x.2 && (match y.1 with | .co ids true => ids.contains m | _ => false)
     | _ => true
   -- H6 census
-  let h6 := toks.all fun t => match t with | .lk n => n = 0 | .to _ => false | _ => true
+  let h6 := toks.all fun t => match t with | .lk n => n = 0 | .oc n => n = 0 | .to _ => false | _ => true
   h1 && h2 && h3 && h4 && h5 && h6
 
 end WMon
@@ -245,7 +257,8 @@ def parseKind : String → Option Kind
 
 def parseRes : String → Option ReaderClose.Res
   | "msg" => some .msg | "eof" => some .eof | "ctx" => some .ctx | "closed" => some .closedPipe
-  | "gclosed" => some .groupClosed | "gen" => some .gen | "ok" => some .ok | "err" => some .err | _ => none
+  | "gclosed" => some .groupClosed | "gen" => some .gen | "ok" => some .ok | "err" => some .err
+  | "tmo" => some .err | _ => none
 
 /-- model events an observed token may stand for (`none` = unparsable, `[]` + true = ignore) -/
 def tokEvents (t : String) : Option (List ReaderClose.Event) :=
@@ -258,7 +271,7 @@ def tokEvents (t : String) : Option (List ReaderClose.Event) :=
   | ["gj", m] => do some [.join (← parseMember m)]
   | ["gJ", m] => do match (← parseMember m) with | some n => some [.joinOk n] | none => none
   | ["gE"] => some [.joinErr, .coordErr]
-  | ["gF"] => some [.coordErr]
+  | ["gF"] => some [.lookupFail]
   | ["gs"] => some [.sync]
   | ["go"] => some [.offsetFetch]
   | ["gh", m] => do match (← parseMember m) with | some n => some [.heartbeat n] | none => none
@@ -266,11 +279,13 @@ def tokEvents (t : String) : Option (List ReaderClose.Event) :=
   | ["gl", m] => do match (← parseMember m) with | some n => some [.leave n] | none => none
   | ["co", _] => some [.coordOpen]
   | ["cc", _] => some [.coordClose]
-  | ["bo", _] => some [.dial]
-  | ["bc", _] => some [.connClose]
+  | ["bo", _] => some [.dial, .coordOpen]      -- a real connection: a fetcher's or the group loop's
+  | ["bc", _] => some [.connClose, .coordClose]
   | ["fq"] => some [.fetchReq]
   | ["lk", _] => some []
   | ["oc", _] => some []
+  | ["ci"] => some []
+  | ["rl"] => some []
   | _ => none
 
 partial def closure (work : List ReaderClose.State) (seen : RS) : RS :=
@@ -376,12 +391,14 @@ def holds (toks : List String) : Bool :=
 /-- Transport round trips: each call is `roundTrip`; cancelled calls must have returned the context's error -/
 def holdsT (toks : List String) : Bool :=
   let calls := toks.filterMap fun t => match t.splitOn "/" with | ["rb", c, _] => some c | _ => none
-  calls.all (fun c => toks.contains s!"rr/{c}/ctx" || toks.contains s!"rr/{c}/err" && !toks.contains s!"cx/{c}") &&
+  calls.all (fun c => toks.contains s!"rr/{c}/ctx" || (toks.contains s!"rr/{c}/err" || toks.contains s!"rr/{c}/ok") && !toks.contains s!"cx/{c}"
+    -- a call whose answer arrived before its context ended may return it
+    || toks.contains s!"rr/{c}/ok") &&
   toks.all fun (t : String) => !(t.startsWith "lk/" || t.startsWith "oc/") || t == "lk/0" || t == "oc/0"
 
 def simulateT (toks : List String) : String :=
   match simulate false toks with
-  | r => if r.startsWith "close=" then ((r.drop ("close=none ".length)).toString.splitOn " ").headD "" else r
+  | r => if r.startsWith "close=" then (r.drop ("close=none ".length)).toString else r
 
 end R
 
@@ -456,41 +473,24 @@ def parseItem (t : String) : Option Item :=
   | ["cClose", n] => n.toNat?.map .cclose
   | _ => (parseEv t).map .ev
 
-/-- connections the `run` goroutine may hold in a quiescent phase of its loop: none (every path through
-`coordinator()`, `nextGeneration` and `leaveGroup` — answered, rejected or failed — closes what it opened) -/
-def quiescentPC : PC → Bool
-  | .exited | .backoffP _ | .coord 0 _ => true   -- `coord 0`: a new `coordinator()` lookup starts
-  | _ => false
-
-/-- steps of the `run` goroutine that leave a quiescent phase -/
-def _root_.KV.Group.Ev.runLoop' : Ev → Bool
-  | .connectRes _ | .backoff _ | .runExit => true
-  | _ => false
-
-/-- deterministic acceptance: fold `step` (D9-repaired code) over the events; the connections opened so far and not
-yet closed are tracked beside the model state and must be none whenever the model reaches a quiescent phase -/
+/-- deterministic acceptance: fold `GroupConns.stepC` (GroupRun's `step`, D9-repaired code, extended with what the
+code does to its coordinator connections at each step) over the ordered log of hook events and dialer journal lines;
+a connection that is not closed before `run` starts the next lookup, ends a back-off or returns is a rejected event -/
 def replay (nw : Nat) (items : List (String × Item)) : String × Option St := Id.run do
   let cfg : Group.Cfg := ⟨nw, true⟩
-  let mut s : St := {}
-  let mut opn : List Nat := []
+  let mut s : GroupConns.CS := {}
   let mut i := 0
   for (raw, it) in items do
-    match it with
-    | .copen n => opn := n :: opn
-    | .cclose n => opn := opn.erase n
-    | .ev e =>
-      -- checked when the goroutine *leaves* a quiescent phase or exits: by then the deferred / trailing Close calls
-      -- of the previous phase have run
-      if quiescentPC s.pc && e.runLoop' && !opn.isEmpty then
-        return (s!"conns-open@{i}:{raw}:{opn.length}", none)
-      match Group.step cfg s e with
-      | some s' =>
-        s := s'
-        if s'.pc == .exited && !opn.isEmpty then
-          return (s!"conns-open@{i}:{raw}:{opn.length}", none)
-      | none => return (s!"reject@{i}:{raw}", none)
+    let e : GroupConns.CEv := match it with | .copen _ => .copen | .cclose _ => .cclose | .ev e => .ev e
+    match GroupConns.stepC cfg s e with
+    | some s' => s := s'
+    | none =>
+      let why := if (Group.step cfg s.g (match it with | .ev e => e | _ => .runExit)).isSome then "conns-owed" else "reject"
+      return (s!"{why}@{i}:{raw}:open={s.owedOpen},close={s.owedClose}", none)
     i := i + 1
-  return ("ok", some s)
+  if s.g.pc == .exited && (s.opened != s.closed) then
+    return ("exited-with-connections", none)
+  return ("ok", some s.g)
 
 /-- C09 monitor on the raw event list: Close returns after `run` exited; the member id held last was sent in a
 LeaveGroup before; nothing but refused `Next` calls after Close returned -/
@@ -540,6 +540,157 @@ def run (cfgs : String) (trace : String) : String × Bool :=
 
 end G
 
+/-! ## Transport connection life cycles: deterministic replay of the T.* hook events (op `ttrace`) -/
+
+namespace T
+open KV.TransportConn
+
+def parseEv (t : String) : Option Ev :=
+  let body := (t.drop 1).toString
+  match t.take 1 |>.toString, body.splitOn ":" with
+  | "N", [c, g] => do some (.new (← c.toNat?) (← g.toNat?))
+  | "G", [c] => c.toNat?.map .grab
+  | "R", [c] => c.toNat?.map .recv
+  | "D", [c, o] => do some (.done (← c.toNat?) (o == "ok") (o == "keep"))
+  | "L", [c, a] => do some (.release (← c.toNat?) (a == "1"))
+  | "M", [c] => c.toNat?.map .remove
+  | "C", [g] => g.toNat?.map .closeIdle
+  | "X", [c] => c.toNat?.map .exit
+  | _, _ => none
+
+/-- `model`: the trace is accepted step by step; after the scenario's deadlines and CloseIdleConnections the model
+predicts that no connection is alive (`closing_only_exits`, `released_refused_exits`: a closing connection can only
+exit; idle ones were closed by their group) -/
+def run (trace : String) : String × Bool :=
+  let toks := if trace == "-" then [] else (trace.splitOn ";").filter (· ≠ "")
+  match toks.mapM parseEv with
+  | none => ("bad-trace", false)
+  | some evs =>
+    let news := evs.filterMap fun e => match e with | .new c _ => some c | _ => none
+    let exits := evs.filterMap fun e => match e with | .exit c => some c | _ => none
+    let holds := news.all fun c => exits.contains c
+    match firstRejected ⟨true⟩ [] evs 0 with
+    | some i => (s!"reject@{i}:{toks.getD i "?"}", holds)
+    | none => ("live=0", holds)
+
+end T
+
+/-! ## Partition fetchers: deterministic replay of the RL.* hook events through Model/FetcherLife (op `ftrace`) -/
+
+namespace F
+open KV.FetcherLife
+
+def parseEv (t : String) : Option (Nat × FetcherLife.Event) :=
+  let body := (t.drop 1).toString
+  match t.take 1 |>.toString, body.splitOn ":" with
+  | "T", [f, a] => do some ((← f.toNat?), .top (← a.toNat?))
+  | "C", [f] => do some ((← f.toNat?), .cancel)
+  | "I", [f, ok] => do some ((← f.toNat?), .init (ok == "1"))
+  | "J", [f] => do some ((← f.toNat?), .iter)
+  | "R", [f, c] => do
+    let cls ← (match c with
+      | "cont" => some ReadClass.cont | "close" => some .closeBreak | "codec" => some .codecBreak
+      | "oor" => some .outOfRange | "canceled" => some .canceled | _ => none)
+    some ((← f.toNat?), .read cls)
+  | "O", [f, ok] => do some ((← f.toNat?), .offsets (ok == "1"))
+  | "M", [f] => do some ((← f.toNat?), .msg)
+  | "E", [f] => do some ((← f.toNat?), .sendErr)
+  | _, _ => none
+
+/-- every fetcher's events are replayed through `step`; after Close returned (`r.join.Wait()`) the model predicts that
+every fetcher has exited (`fetcher_terminates_after_cancel`) with its connection closed (`fetcher_exit_closes_conn`) -/
+def run (trace : String) : String × Bool := Id.run do
+  let toks := if trace == "-" then [] else (trace.splitOn ";").filter (· ≠ "")
+  match toks.mapM parseEv with
+  | none => return ("bad-trace", false)
+  | some evs =>
+    let mut states : List (Nat × FetcherLife.State) := []
+    let mut i := 0
+    for (f, e) in evs do
+      let s := ((states.find? (·.1 == f)).map (·.2)).getD {}
+      match FetcherLife.step s e with
+      | none => return (s!"reject@{i}:{toks.getD i "?"}", false)
+      | some s' => states := (f, s') :: states.filter (·.1 != f)
+      i := i + 1
+    let live := (states.filter fun x => x.2.pc != .exited).length
+    let connOpen := states.any fun x => x.2.pc == .exited && x.2.connOpen
+    -- monitor (raw events): each fetcher's last control event is an exit (a cancelled sleep or a cancelled read)
+    return (if connOpen then "exited-with-conn" else "live=0", live == 0)
+
+end F
+
+/-! ## Writer.Close on the hook events of writer.go (op `wtrace`): the WaitGroup of Model/WriterClose evaluated
+deterministically, and the trace-level counterpart of `all_completed_before_close_return` -/
+
+namespace WH
+
+inductive Ev
+  | enter (ok : Bool) | left | newPW (p q : Nat) | newBatch (b : Nat) | attempt (b : Nat) | completion (b : Nat)
+  | complete (b : Nat) | senderExit (q : Nat) | closeBegin | closeMarked | closeReturn
+deriving DecidableEq
+
+def parseEv (t : String) : Option Ev :=
+  if t == "E1" then some (.enter true) else if t == "E0" then some (.enter false)
+  else if t == "L" then some .left else if t == "XB" then some .closeBegin
+  else if t == "XM" then some .closeMarked else if t == "XR" then some .closeReturn
+  else
+    let body := (t.drop 1).toString
+    match t.take 1 |>.toString, body.splitOn ":" with
+    | "P", [p, q] => do some (.newPW (← p.toNat?) (← q.toNat?))
+    | "N", [b] => b.toNat?.map .newBatch
+    | "A", [b] => b.toNat?.map .attempt
+    | "K", [b] => b.toNat?.map .completion
+    | "C", [b] => b.toNat?.map .complete
+    | "G", [q, "nil"] => q.toNat?.map .senderExit
+    | _, _ => none
+
+/-- the WaitGroup as Model/WriterClose derives it (`State.wg`): calls between enter and leave + live sender goroutines
+(awaitBatch goroutines have no exit hook and are left out); `enter` is refused iff the writer is marked closed;
+CloseReturn needs the count to be 0 -/
+def replay (evs : List Ev) : String := Id.run do
+  let mut calls := 0
+  let mut senders := 0
+  let mut closed := false
+  let mut i := 0
+  for e in evs do
+    match e with
+    | .enter ok =>
+      if ok == closed then return s!"reject@{i}:enter-{ok}-while-closed={closed}"
+      if ok then calls := calls + 1
+    | .left => if calls == 0 then return s!"reject@{i}:leave-without-enter" else calls := calls - 1
+    | .newPW _ _ => senders := senders + 1
+    | .senderExit _ => if senders == 0 then return s!"reject@{i}:sender-exit" else senders := senders - 1
+    | .closeBegin => closed := true
+    | .closeReturn => if calls != 0 || senders != 0 then return s!"reject@{i}:CloseReturn-with-wg={calls + senders}"
+    | _ => pure ()
+    i := i + 1
+  return "ok"
+
+/-- monitor on the raw events: at CloseReturn every batch created has been completed (after exactly one Completion
+callback when any is configured), every partition writer's sender has exited, and nothing happens afterwards -/
+def holds (evs : List Ev) : Bool :=
+  let z := evs.zipIdx
+  match (z.find? fun x => x.1 == .closeReturn).map (·.2) with
+  | none => true
+  | some r =>
+    let before := (z.filter fun x => x.2 < r).map (·.1)
+    let after := (z.filter fun x => x.2 > r).map (·.1)
+    let anyCompletion := evs.any fun e => match e with | .completion _ => true | _ => false
+    let batches := evs.filterMap fun e => match e with | .newBatch b => some b | _ => none
+    let queues := evs.filterMap fun e => match e with | .newPW _ q => some q | _ => none
+    batches.all (fun b => before.contains (.complete b) &&
+      (!anyCompletion || (before.filter (· == .completion b)).length == 1)) &&
+    queues.all (fun q => before.contains (.senderExit q)) &&
+    after.all (fun e => match e with | .enter false => true | .enter true => false | _ => false)
+
+def run (trace : String) : String × Bool :=
+  let toks := if trace == "-" then [] else (trace.splitOn ";").filter (· ≠ "")
+  match toks.mapM parseEv with
+  | none => ("bad-trace", false)
+  | some evs => (replay evs, holds evs)
+
+end WH
+
 def answer (model : String) (holds : Bool) : String :=
   s!"model={model} holds={if holds then 1 else 0}"
 
@@ -555,6 +706,9 @@ def step (line : String) : String :=
       answer (R.simulate (cfgs.startsWith "grp=1") toks) (R.holds toks)
     | "tclose" :: _ :: toks => answer (R.simulateT toks) (R.holdsT toks)
     | ["grun", cfgs, trace] => let (m, h) := G.run cfgs trace; answer m h
+    | ["ttrace", _, trace] => let (m, h) := T.run trace; answer m h
+    | ["ftrace", _, trace] => let (m, h) := F.run trace; answer m h
+    | ["wtrace", _, trace] => let (m, h) := WH.run trace; answer m h
     | _ => "bad-op"
   | _ => "bad-line"
 
